@@ -13,7 +13,7 @@ from ..engine import src
 
 PID = "C19"
 LEVEL = "model_checking"
-RULE = ("all leaf sequences of length 1..L over {LineA(2), LineB(1), Grid(2x LineA(1)), bare antenna, list of 2 antennas, "
+RULE = ("all leaf sequences of length 1..L over {LineA(2), LineB(1), Grid(2x LineA(1)), Grid(2x LineB(1)) -- the same class --, bare antenna, list of 2 antennas, "
         "AntennaSystem} x all parenthesisations x operator assignments {+, +=} per internal node (+ sum() of the flat list) x "
         "5 keyword sets; states = built detectors, transitions = build/hit/clear/trigger operations applied; then every hit "
         "pattern (2^n for n<=5 antennas, none/singles/all above); distinct_nontrivial = distinct (leaf sequence, tree shape, "
@@ -22,7 +22,7 @@ ASSUMPTIONS = ["sub-detectors declaring **kwargs are outside the alphabet (what 
                "an unknown keyword may be refused with TypeError or dropped, but must never reach a sub-detector"]
 CHUNK = 4
 
-KINDS = ["LineA", "LineB", "Grid", "ant", "list", "system"]
+KINDS = ["LineA", "LineB", "Grid", "GridB", "ant", "list", "system"]
 KWSETS = [{}, {"power": 3.0}, {"gain": 5.0}, {"power": 3.0, "gain": 5.0}, {"unknown": 1}]
 
 _CLASSES = {}
@@ -77,9 +77,10 @@ def _classes():
             return any(a.is_hit for a in self)
 
     class Grid(Detector):
-        def set_positions(self, n, x=0.0):
+        # one class, two kinds of content: its build/trigger signatures are mirrored from its lines per *instance*
+        def set_positions(self, n, x=0.0, line="A"):
             for i in range(n):
-                self.subsets.append(LineA(1, x=x + 0.25 * (i + 1)))
+                self.subsets.append((LineA if line == "A" else LineB)(1, x=x + 0.25 * (i + 1)))
 
     _CLASSES.update(Ant=Ant, Sys=Sys, LineA=LineA, LineB=LineB, Grid=Grid, Signal=Signal, Detector=Detector)
     return _CLASSES
@@ -98,6 +99,9 @@ def _leaf(kind, idx, above=False):
     if kind == "Grid":
         d = C["Grid"](2, x=x)
         return d, [(x + 0.25, 0.0, -10.0), (x + 0.5, 0.0, -10.0)]
+    if kind == "GridB":
+        d = C["Grid"](2, x=x, line="B")
+        return d, [(x + 0.25, 1.0, -20.0), (x + 0.5, 1.0, -20.0)]
     if kind == "ant":
         return C["Ant"](position=(x, 2.0, -30.0)), [(x, 2.0, -30.0)]
     if kind == "list":
@@ -174,6 +178,18 @@ def _subdetectors(obj, C):
         for s in obj.subsets:
             out.extend(_subdetectors(s, C))
     return out
+
+
+def _trigger_targets(obj, C):
+    """Sub-detectors whose `triggered` a combined detector dispatches to: combined detectors are transparent, any other
+    detector (LineA, LineB, or a Grid with its default any-antenna trigger) is a target and is not looked into."""
+    from pyrex.detector import CombinedDetector
+    if isinstance(obj, CombinedDetector):
+        out = []
+        for s in obj.subsets:
+            out.extend(_trigger_targets(s, C))
+        return out
+    return [obj] if isinstance(obj, C["Detector"]) else []
 
 
 def _hit(ant, C):
@@ -276,7 +292,9 @@ def _one_tree(seq, shape, ops, use_sum, kw, fails, tag):
             except TypeError as e:
                 # a composition whose sub-detectors all share the one signature that lacks `threshold` passes the
                 # keyword straight through and is legitimately refused; a mixed composition must filter
-                sigs = {type(s_).__name__ for s_ in subs}
+                # (only the detectors the call is dispatched to count: a Grid answers with its default any-antenna trigger
+                # and never forwards keywords to its lines)
+                sigs = {type(s_).__name__ for s_ in _trigger_targets(det, C) if type(s_).__name__ != "Grid"}
                 if sigs != {"LineA"}:
                     fail("trigger-kwargs", "triggered(require_mc_truth=%r, threshold=7) raised TypeError: %s" % (mc, e))
                     break
@@ -312,7 +330,7 @@ def _walk(obj, C):
 
 
 def _history_alphabet(seq):
-    return ["O", "Br"] + ["B%d" % i for i, k in enumerate(seq) if k in ("LineA", "LineB", "Grid")]
+    return ["O", "Br"] + ["B%d" % i for i, k in enumerate(seq) if k in ("LineA", "LineB", "Grid", "GridB")]
 
 
 def _histories(seq, shape, ops, use_sum, depth, fails, tag, only_hist=None):
